@@ -154,13 +154,38 @@ func opName(o *op) string {
 	return o.T
 }
 
-var workerCPUms, workerRuns int64 // bookkeeping only (reported as counters)
+var workerCPUms, workerRuns, workerCrashRetried int64 // bookkeeping only (reported as counters)
+var workerCrashNote string
 
+var fatalRe = regexp.MustCompile(`(?m)^(fatal error|runtime: |panic: |signal ).*$`)
+
+// runProgram compiles and runs one program in the worker.  The worker process
+// is recycled every 40 programs (its address space grows with every wazero
+// run and is capped by RLIMIT_AS), and a request during which the process died
+// is repeated once on a fresh process: only a death that repeats is attributed
+// to the program.
 func runProgram(src string) wk.Outcome {
+	if workerRuns > 0 && workerRuns%40 == 0 {
+		w().Close()
+	}
 	o := w().Do("run", wk.Src{Name: "c13.wa", Src: src})
 	workerRuns++
 	if o.CPUms > 0 {
 		workerCPUms += o.CPUms
+	}
+	if o.Kind == wk.Exited {
+		first := o
+		o = w().Do("run", wk.Src{Name: "c13.wa", Src: src})
+		workerRuns++
+		if o.CPUms > 0 {
+			workerCPUms += o.CPUms
+		}
+		if o.Kind != wk.Exited {
+			workerCrashRetried++
+			if workerCrashNote == "" {
+				workerCrashNote = fmt.Sprintf("worker process died (code %d %s) on a request that succeeded on a fresh process: %s", first.ExitCode, first.Signal, firstLine(fatalRe.FindString(first.Output)))
+			}
+		}
 	}
 	return o
 }
@@ -584,6 +609,10 @@ func TestHistories(t *testing.T) {
 	defer func() {
 		s.Counter("worker_programs_run", workerRuns)
 		s.Counter("worker_cpu_ms", workerCPUms)
+		if workerCrashRetried > 0 {
+			s.Counter("worker_died_retried_ok", workerCrashRetried)
+			s.Note(workerCrashNote)
+		}
 		s.Flush()
 	}()
 	s.Check(t, func(t *rapid.T, c *core.Case) {
